@@ -132,6 +132,12 @@ THEOREMS = [
      "(exists w1 w2, send_pipe false (fun _ => r) (fun _ h => h) false H1 true None M_HEAD (Ok None) r (Some (cs, Some n)) = Ok (WResp w1) /\\ "
      "send_pipe false (fun _ => r) (fun _ h => h) false H2 true None M_HEAD (Ok None) r (Some (cs, Some n)) = Ok (WResp w2) /\\ "
      "rs_body w1 = [] /\\ rs_body w2 = [])"),
+    ("head_end_of_stream_refuted",
+     "exists (v st : N) (h : headers) (cs : list bytes), concat cs <> [] /\\ "
+     "receive H1 M_GET (pipe_send H1 true v st (ensure_length H1 (N.of_nat (length (concat cs))) h) None cs) "
+     "= WResp (mkResp v st (h1_connection (ensure_length H1 (N.of_nat (length (concat cs))) h)) (concat cs)) /\\ "
+     "receive H2 M_GET (pipe_send H2 true v st h None cs) = WResp (mkResp v st (h2_strip h) []) /\\ "
+     "receive H2 M_GET (pipe_send H2 false v st h None cs) = WResp (mkResp v st (h2_strip h) (concat cs))"),
     ("limiter_answer_parity",
      "forall (m : N) (r : resp), onorm (send_direct H1 m r) = onorm (send_direct H2 m r) /\\ "
      "forall p : proto, exists h : headers, send_direct p m r = "
@@ -285,7 +291,7 @@ TRUSTED = [
     "the limit: that yields the specification 'the first l bytes'); the classification of failures into harness trouble / outcome "
     "(is_trouble, three agreeing runs)",
 ]
-LEVEL_TEXT = ("partial. Machine-checked Coq theorems (24, statements pinned) over an executable model of the protocol-dependent path above "
+LEVEL_TEXT = ("partial. Machine-checked Coq theorems (25, statements pinned) over an executable model of the protocol-dependent path above "
               "the shared layer 4 of C03: protocol_parity / send_parity (for every host configuration, cache state, request, layer-4 "
               "response, TLS or plain HTTP/1 connection and oblivious Package chain the HTTP/1.1 and HTTP/2 answers are equal after "
               "dropping the version and exactly the headers connection, keep-alive, proxy-connection, transfer-encoding, upgrade, te, "
@@ -310,7 +316,8 @@ LEVEL_TEXT = ("partial. Machine-checked Coq theorems (24, statements pinned) ove
               "into DATA frames, every amount arriving with the HTTP/1 head and every limit the first read_to_bytes(l) returns the "
               "first l bytes on both protocols), pair_history_answered (the executable history model of the correspondence - "
               "ordinary, streamed and limiter-answered exchanges - equals its specification on every input of the domain); and "
-              "five witnesses: unread_request_body_v0_refuted (the loop before fix dfe4d54), head_stream_v0_refuted (before fix "
+              "six witnesses: head_end_of_stream_refuted (why the head must not carry END_STREAM when Response::body is empty), "
+              "unread_request_body_v0_refuted (the loop before fix dfe4d54), head_stream_v0_refuted (before fix "
               "572c88a a HEAD for a streamed response got the streamed bytes: broken framing on both protocols), "
               "stream_body_v0_refuted (before fix 7cbe1e5 stream_body announced more bytes than it sent for a Range beyond the "
               "file), undeclared_request_body_refuted and second_read_refuted (the two known classes). The model is tied to /repo "
@@ -1118,8 +1125,33 @@ def spec_ok(c, i, s):
     return False
 
 
+def sbody_oracle(c, i):
+    """extensions::stream_body(): the length announced is the number of bytes written, and they are the requested part of the file"""
+    try:
+        f = c.x[1][0][1]
+        rg = [(r[1][0][1], r[1][1][1]) for r in c.x[1][1][1]]
+        v = kv.xparse(i)
+    except Exception:
+        return "unparsable output"
+    if v[0] != "L" or (v[1] and v[1][0][0] == "N"):
+        return "stream_body answered neither a stream nor 416: " + kv.pretty(v, 200)
+    if not v[1]:
+        return None if rg and rg[0][0] >= len(f) else "416 for a satisfiable Range %r on a %d-byte file" % (rg, len(f))
+    written, ln = v[1][0][1][0][1], v[1][0][1][1][1]
+    a, e = rg[0] if rg else (0, len(f))
+    if a >= len(f) and rg:
+        return "a Range that starts at or after the end of the %d-byte file was answered with a stream" % len(f)
+    if ln != len(written):
+        return "stream_body announced %d bytes and wrote %d (file of %d bytes, Range %r)" % (ln, len(written), len(f), rg)
+    if written != f[a:min(e, len(f))]:
+        return "stream_body wrote other bytes than [%d, %d) of the file" % (a, min(e, len(f)))
+    return None
+
+
 def extra_oracle(c, i):
     """parity itself, on the implementation's output only"""
+    if c.comp == "proto.sbody":
+        return sbody_oracle(c, i)
     if c.comp not in PAIRS:
         return None
     try:
